@@ -132,7 +132,15 @@ def same(a, b, counters):
     if np.allclose(a, b, rtol=1e-12, atol=1e-14):
         counters["ulp_diff"] += 1
         return True
+    if CMP["tol"] and np.all(np.isfinite(a)) and float(np.abs(a - b).max(initial=0)) <= CMP["tol"] * float(np.abs(b).max(initial=0)) + 1e-13:
+        # KPM solver: two fresh computations already differ at the level of the requested accuracy (random Lanczos
+        # start vector): compared to a multiple of that accuracy
+        counters["kpm_values_within_solver_accuracy"] += 1
+        return True
     return False
+
+
+CMP = {"tol": 0.0}
 
 
 class Mode:
@@ -155,7 +163,8 @@ class Mode:
         from vf import implicit
 
         rng = rng_for(10, spec["case"], 1)
-        ispec = implicit.gen(rng, "quick", n_par=int(rng.choice([1, 1, 2])))
+        kpm = bool(rng.random() < 0.2)
+        ispec = implicit.gen(rng, "quick", n_par=2 if kpm else int(rng.choice([1, 1, 2])), **(dict(hermitian=True, real_pairs=False) if kpm else {}))
         ispec["N"] = max(min(ispec["N"], 9), sum(ispec["sizes"]) + 2)
         c = implicit.build(ispec)
         Hi, _ = implicit.hamiltonians(c, sparse_input=bool(rng.integers(0, 2)))
@@ -163,6 +172,13 @@ class Mode:
         kw = dict(hermitian=c["hermitian"])
         if ispec["fd"]:
             kw["fully_diagonalize"] = (0,)
+        self.tol = 0.0
+        if kpm:
+            # KPM solver, two perturbations of very different strength (the number of moments a right-hand side needs
+            # depends on its size): values must not depend on which Sylvester equations were solved before
+            Hi[2] = Hi[2] * 1e-4
+            kw.update(direct_solver=False, solver_options={"atol": 1e-7})
+            self.tol = 1e-4  # relative to the element itself (the weak perturbation's elements are ~1e-8)
         self.inputs = [Hi, vecs]
         self.nb, self.n_par = len(c["sizes"]) + 1, ispec["n_par"]
         self.orders = [(0,), (1,), (2,)] if ispec["n_par"] == 1 else [(a, b) for a in range(3) for b in range(3) if a + b <= 2]
@@ -224,6 +240,8 @@ def _gen_history(rng, mode, length):
 def run_case(spec):
     counters = Counter()
     mode = Mode(spec)
+    CMP["tol"] = float(getattr(mode, "tol", 0.0))
+    counters["implicit_kpm_histories"] += int(bool(CMP["tol"]))
     rng = rng_for(10, spec.get("hist", spec.get("case", 0) if isinstance(spec.get("case"), int) else 0), 2)
     universe = [(s, i, j, n) for s in range(3) for i in range(mode.nb) for j in range(mode.nb) for n in mode.orders]
     input_snap = snapshot(mode.inputs)
@@ -258,7 +276,7 @@ def run_case(spec):
             raise Violation(f"request {req} after history {context} raised {type(e).__name__}: {e}")
         for el, obj in got:
             if not same(val(obj), canon_of(el), counters):
-                raise Violation(f"element {el} requested via {req[0]} after history {context} differs bitwise from a fresh computation")
+                raise Violation(f"element {el} requested via {req[0]} after history {context} differs from a fresh computation (bitwise; for KPM histories beyond the solver accuracy)")
             counters["values_compared"] += 1
             if not isinstance(obj, (str, LinearOperator)) and obj is not np.ma.masked:
                 from pymablock.series import one, zero
